@@ -4,15 +4,8 @@
 //!        fqv <ID> --replay <file.json>        re-execute one saved case through the oracle
 //!        fqv selftest [full]                  oracle self-test against the `qrcode` crate
 
-mod engine;
-mod fq;
-mod gens;
-mod props;
-mod selftest;
-mod svgcase;
-mod svgpath;
-
-use engine::{Engine, Tier};
+use fqv::engine::{self, Engine, Tier};
+use fqv::{props, selftest};
 
 fn usage() -> ! {
     eprintln!("usage: fqv <C01..C19> <quick|thorough> | fqv <ID> --replay <file> | fqv selftest [full]");
@@ -97,5 +90,6 @@ fn main() {
     }
     e.start_watchdog(prop.watchdog_s, prop.on_timeout);
     (prop.run)(e);
+    fqv::fuzzrt::replay_seeds(e);
     std::process::exit(e.finish());
 }
